@@ -19,7 +19,7 @@ use super::ops::*;
 use super::types::*;
 
 fn spec(id: u64, obs: &[(u64, u32, f32)], group: u8, status: u8, poison_merge: bool) -> TrackSpec {
-    TrackSpec { id, group, status, poison_merge, obs: obs.to_vec(), absorbed: vec![] }
+    TrackSpec { id, group, status, poison_merge, obs: obs.to_vec(), absorbed: vec![], created_as: None }
 }
 
 const POISON_TAG: u32 = 3 * POISON_MOD + POISON_REM;
@@ -67,6 +67,7 @@ pub fn alphabet() -> Vec<Op> {
     }
     a.push(Op::MergeExt { dest: 1, src: ext_pm, classes: None, hist: true, fail_nth: None });
     a.push(Op::MergeExt { dest: 1, src: ext.clone(), classes: Some(vec![3]), hist: true, fail_nth: None });
+    a.push(Op::MergeExt { dest: 1, src: TrackSpec { created_as: Some(77), ..ext.clone() }, classes: None, hist: true, fail_nth: None });
     a.push(Op::MergeExt { dest: 0, src: spec(0, &[(0, 35, 0.5)], 0, 0, false), classes: None, hist: false, fail_nth: None });
     // un-awaited merges and their handles
     a.push(Op::MergeNoblock { slot: 0, dest: 0, src: ext.clone(), classes: None, hist: true });
